@@ -44,7 +44,12 @@ EDGE_PARAMS = {
     "NegativelyComonotoneOperator": [{"rho": 0.0}],
     "SymmetricLinearOperator": [{"mu": 0.0, "L": 1.0}, {"mu": 1.0, "L": 1.0}],
     "SmoothStronglyConvexQuadraticFunction": [{"mu": 1.0, "L": 1.0}],
+    "ConvexIndicatorFunction": [{"D": 0.0}],                      # the indicator of a single point
+    "ConvexSupportFunction": [{"M": 0.0}],
+    "ConvexLipschitzFunction": [{"M": 0.0}],
 }
+EDGE_PARAMS["SmoothStronglyConvexFunction"].append({"mu": 1.0 - 1e-6, "L": 1.0})      # condition number within 1e-6 of one
+
 
 
 def params_of(cls):
